@@ -385,7 +385,7 @@ HARNESSES = {
         + [{"fixed": {"n_ops": 3, "dmax": 2, "ntype": nt}, "timeout": 1200} for nt in ("server", "wireless-router")],
         "cover": ["state_ON", "state_OFF", "state_SHUTTING_DOWN", "returned_to_on", "fs_scan_started"],
         "bounds": {
-            "quick": "n_ops=2 ops from the initial ON state, durations 0..2, node types computer+router",
+            "quick": "n_ops=2 ops (out of 10: tick, shutdown, startup, reset, another request, ping in/out, software/NIC API calls, file-system scan, service disable) from the initial ON state, durations 0..2, node types computer, router and wireless router; n_ops=3 with the first op fixed to a file-system scan (computer) or a service disable (computer, router)",
             "thorough": "n_ops=4 (first op fixed to shutdown/reset) durations 0..2 for computer/router/switch/firewall; "
             "n_ops=3 for server/wireless-router",
         },
